@@ -137,7 +137,8 @@ func pkgsOfText(m *Model, text string) []string {
 
 func tupleList(id string, vars []*interp.Opaque) *interp.Opaque {
 	return &interp.Opaque{Kind: "types.Tuple", ID: id, GoType: "*go/types.Tuple", Methods: methods{
-		"Len": opaqueMethod(int64(len(vars))),
+		"Len":       opaqueMethod(int64(len(vars))),
+		"Variables": opaqueMethod(seqOf(vars)),
 		"At": func(m *interp.Machine, pos token.Pos, args []interp.Value) (interp.Value, error) {
 			i, ok := args[0].(int64)
 			if !ok || i < 0 || int(i) >= len(vars) {
@@ -192,6 +193,9 @@ func (d *deriver) ifaceOpaque(i int) (*interp.Opaque, interp.Value) {
 		"NumExplicitMethods": opaqueMethod(maxInt(nm-1, 0)),
 		"ExplicitMethod":     at("ExplicitMethod"),
 		"NumEmbeddeds":       opaqueMethod(int64(1)),
+		// the go1.23 iterators over the same lists
+		"Methods":         opaqueMethod(seqOf(funcs)),
+		"ExplicitMethods": opaqueMethod(seqOf(funcs[:maxInt(nm-1, 0)])),
 	}}
 	var tparams interp.Value = interp.NilV{}
 	if len(mi.TypeParams) > 0 {
@@ -211,7 +215,8 @@ func (d *deriver) ifaceOpaque(i int) (*interp.Opaque, interp.Value) {
 		}
 		n := int64(len(tps))
 		tparams = &interp.Opaque{Kind: "types.TypeParamList", ID: fmt.Sprintf("tparams%d", i), GoType: "*go/types.TypeParamList", Methods: methods{
-			"Len": opaqueMethod(n),
+			"Len":        opaqueMethod(n),
+			"TypeParams": opaqueMethod(seqOf(tps)),
 			"At": func(m *interp.Machine, pos token.Pos, args []interp.Value) (interp.Value, error) {
 				k, ok := args[0].(int64)
 				if !ok || k < 0 || k >= n {
@@ -222,6 +227,14 @@ func (d *deriver) ifaceOpaque(i int) (*interp.Opaque, interp.Value) {
 		}}
 	}
 	return iface, tparams
+}
+
+func seqOf(os []*interp.Opaque) *interp.Seq {
+	sq := &interp.Seq{}
+	for _, o := range os {
+		sq.Elems = append(sq.Elems, o)
+	}
+	return sq
 }
 
 func maxInt(a, b int64) int64 {
@@ -362,9 +375,34 @@ func (d *deriver) run(formatter string) (*Derived, error) {
 	if err != nil {
 		return und("%v", err)
 	}
-	mocker, err := d.fillStruct(tMocker, "mocker", map[string]interp.Value{"cfg": cfg, "registry": &interp.Ptr{Elem: reg}, "tmpl": tmplStruct})
-	if err != nil {
-		return und("%v", err)
+	// the Mocker is the one moq.New builds from the configuration (its current source is interpreted;
+	// loading the package and parsing the template are replaced by the abstract registry and template)
+	_ = tMocker
+	d.m.Ext[load.PkgRegistry+".New"] = func(m *interp.Machine, pos token.Pos, recv interp.Value, args []interp.Value) (interp.Value, error) {
+		return interp.Tuple{&interp.Ptr{Elem: reg}, interp.NilV{}}, nil
+	}
+	d.m.Ext[load.PkgTemplate+".New"] = func(m *interp.Machine, pos token.Pos, recv interp.Value, args []interp.Value) (interp.Value, error) {
+		return interp.Tuple{tmplStruct, interp.NilV{}}, nil
+	}
+	newFn := prog.LookupFunc(load.PkgMoq, "New")
+	if newFn == nil {
+		return und("generator anchor lost: New not found in %s", load.PkgMoq)
+	}
+	built, nerr := d.m.CallFunc(token.NoPos, newFn, nil, []interp.Value{cfg})
+	if nerr != nil {
+		if u, ok := nerr.(*interp.ErrUndecided); ok {
+			return nil, &Undecided{GoPos: u.Pos, Msg: "abstract interpretation of moq.New: " + u.Msg}
+		}
+		return nil, nerr
+	}
+	var mocker *interp.Struct
+	if t, ok := built.(interp.Tuple); ok && len(t) == 2 {
+		if p, ok := t[0].(*interp.Ptr); ok {
+			mocker = p.Elem
+		}
+	}
+	if mocker == nil {
+		return und("moq.New does not return a *Mocker on the abstract configuration (got %s)", interp.Show(built))
 	}
 	// ---- registry models
 	regPath := load.PkgRegistry
@@ -530,6 +568,10 @@ func (d *deriver) run(formatter string) (*Derived, error) {
 				return &interp.Unknown{Why: "constraint of " + interp.Show(args[0])}, nil
 			}
 			typ, _ := vr.Attrs["type"].(*interp.Opaque)
+			if vr.Kind == "types.Type" {
+				// the constraint handed over as a type rather than wrapped in a variable
+				typ = vr
+			}
 			if typ != nil {
 				if ex, ok := typ.Attrs["explicit"].(*interp.Sym); ok {
 					if c, _ := ex.Concrete(); c != "" {
@@ -599,6 +641,13 @@ func (d *deriver) run(formatter string) (*Derived, error) {
 	switch r := ret.(type) {
 	case interp.NilV:
 	case nil:
+	case *interp.Unknown:
+		// an abstract error returned as it is (`return err`): nil on one path, non-nil on the other
+		isNil, terr := d.m.TruthOf(&interp.Unknown{Why: "(" + r.Why + " == nil)"}, "0:("+r.Why+" == nil)")
+		if terr != nil {
+			return nil, terr
+		}
+		dv.Failed = !isNil
 	default:
 		dv.Failed = true
 		_ = r
@@ -627,6 +676,9 @@ func (d *deriver) run(formatter string) (*Derived, error) {
 		dv.ob("G-MOCK/fail-stop", "after-"+what, last, "after %s failed, Mock goes on (%s): a failure must end the run before anything else is done, in particular before anything is written", what, eventKinds(d.events[ei+1:]))
 		dv.ob("G-MOCK/error-returned", "after-"+what, dv.Failed, "%s failed but Mock returned nil: the failure is swallowed and the caller sees success", what)
 	}
+	// a path on which every fallible operation succeeded must succeed: anything else is a refusal
+	// that depends on the input (names, shapes, flags) alone
+	dv.ob("G-MOCK/accepts", "no-input-dependent-refusal", !(dv.Failed && len(nonNil) == 0), "Mock returns an error although the lookups, the template execution, the formatter and the write all succeeded (conditions on this path: %s): some interfaces are refused under these options", d.m.Choices.Describe())
 	d.obligations(dv, formatter)
 	return dv, nil
 }
